@@ -159,6 +159,123 @@ def r9_2(ctx, fx):
     ctx.floor(rid, n, 25, "lifted transformers (one instantiation each)")
 
 
+# members that keep the sequence omega-reduced although they change disjuncts, with the reason
+R94_KEEPS = {
+    "add_space_dimensions_and_embed": "embedding is an order embedding (P is contained in Q iff their embeddings are) and keeps every disjunct non-empty: no disjunct becomes empty or entailed",
+    "add_space_dimensions_and_project": "as for add_space_dimensions_and_embed (P x {0})",
+    "expand_space_dimension": "expansion is monotone and order-reflecting (project the new dimensions away) and keeps disjuncts non-empty",
+    "clear": "an empty sequence is omega-reduced whatever the flag says",
+    # The next two can make one disjunct entail another (two disjuncts with the same closure / the same fold) and leave
+    # the claim standing; no disjunct can become EMPTY, which is the case the union-level answers (is_bottom()) depend on.
+    # The stale claim is visible through size() and the syntactic operator== only: recorded as an observation, not judged.
+    "fold_space_dimensions": "folding keeps every disjunct non-empty; it may create entailed disjuncts, which the rule does not judge (observation in DESIGN §6)",
+    "topological_closure_assign": "closure keeps every disjunct non-empty; it may create entailed disjuncts, which the rule does not judge (observation in DESIGN §6)",
+}
+# callees on the powerset itself that discharge the obligation (they withdraw or re-establish the claim themselves)
+R94_DISCHARGE = ("omega_reduce", "add_disjunct", "add_non_bottom_disjunct_preserve_reduction", "pairwise_reduce",
+                 "collapse", "clear", "m_swap", "operator=")
+
+
+def r9_4(ctx, fx):
+    rid = "R9.4"
+    ctx.rule(rid, "omega-reduction claim: `reduced` says that no disjunct entails another, and omega_reduce(), is_omega_reduced(), size() and the equality / entailment tests skip their work when it is set. In every non-const member of Powerset / Pointset_Powerset, after an event that changes the disjuncts in a way that can make one of them empty (is_bottom() and the tests built on it are correct only on an omega-reduced sequence) or entailed — a non-const member call on `sequence` (push_back, erase, insert, ...), or a non-const operation on `it->pointset()` for an iterator over the sequence — every normal path to the exit withdraws the claim (`reduced = false`), copies it from the operand the sequence was copied from, or calls a member that maintains it itself (omega_reduce, add_disjunct, ...); otherwise entailed or duplicate disjuncts stay while the claim says there are none")
+    n = 0
+    seen = set()
+    for f in fx.functions:
+        if f.clsn not in ("Pointset_Powerset", "Powerset") or f.flag("const") or f.kind not in ("method", "ctor") or not f.cfg:
+            continue
+        if f.name in ("omega_reduce", "collapse", "OK", "ascii_load", "m_swap", "add_non_bottom_disjunct_preserve_reduction", "erase", "drop_disjunct", "drop_disjuncts", "pairwise_reduce"):
+            # the maintainers of the claim themselves (R9.5 judges their own exits)
+            continue
+        key = (f.relfile, f.line)
+        if key in seen:
+            continue
+        events = []
+        its = set(it for _, it in _seq_loops(f))
+        for c in f.calls():
+            if c["k"] != "mcall" or c.get("cconst"):
+                continue
+            obj = f.call_obj(c)
+            if obj is None:
+                continue
+            r = f.root(obj)
+            # (a) non-const call on the sequence of the receiver (this->sequence / x.sequence with x = *this)
+            if obj["k"] in ("member", "ref") and r[-1:] == ("sequence",) and r[0] == "this" and f.call_name(c) not in ("begin", "end", "size", "empty", "rbegin", "rend", "pointset"):
+                events.append((c, "sequence.%s()" % f.call_name(c)))
+            # (b) non-const operation on a disjunct reached through pointset()
+            if obj["k"] == "mcall" and f.call_name(obj) == "pointset" and not obj.get("cconst"):
+                base = f.call_obj(obj)
+                if base is not None and (f.root(base)[0] in ("this",) or any(x["k"] == "ref" and x.get("n") in its for x in f.walk(base))):
+                    events.append((c, "%s() on a disjunct" % f.call_name(c)))
+        if not events:
+            continue
+        seen.add(key)
+        if f.kind == "ctor":
+            ri = [i for i in (f.j.get("inits") or []) if i.get("member") == "reduced"]
+            if ri:
+                e = f.nodes.get(ri[0]["e"]["i"]) if isinstance(ri[0].get("e"), dict) and "i" in ri[0]["e"] else None
+                txt = f.text(e).replace(" ", "") if e is not None else ""
+                if txt in ("false", "0") or txt.endswith(".reduced"):
+                    for c, what in events:
+                        n += 1
+                        ctx.ok(rid, "%s::%s %s (line %s) [constructed with reduced(%s)]" % (f.clsn, f.name, what, c.get("l"), txt), f.where(c))
+                    continue
+
+        def discharged(x):
+            if x["k"] == "assign":
+                l = f.deref(x["c"][0])
+                if l is not None and f.root(l)[-1:] == ("reduced",) and f.root(l)[0] == "this":
+                    rt = f.text(f.deref(x["c"][1])).replace(" ", "")
+                    return rt in ("false", "0") or rt.endswith(".reduced")
+            if x["k"] == "mcall" and f.call_name(x) in R94_DISCHARGE:
+                o = f.call_obj(x)
+                return o is None or f.root(o) == ("this",)
+            return False
+        def nonempty_edge(tc, taken):
+            pol = True
+            x = tc
+            while x is not None and (x["k"] in ("cast", "paren") or (x["k"] == "unop" and x.get("op") == "!")):
+                if x["k"] == "unop":
+                    pol = not pol
+                x = f.deref(x["c"][0])
+            if x is None:
+                return False
+            if x["k"] == "mcall" and f.call_name(x) in ("is_empty", "is_bottom", "marked_empty"):
+                return taken != pol          # the edge on which the source is not empty
+            if x["k"] in ("binop", "ocall") and x.get("op") == "==" and "UNIVERSE" in f.text(x):
+                return taken == pol
+            return False
+        for c, what in events:
+            n += 1
+            inst = "%s::%s %s (line %s)" % (f.clsn, f.name, what, c.get("l"))
+            p = flow.must_follow(f, c, discharged, track_env=False)
+            if p is not None and f.kind == "ctor" and what == "sequence.push_back()" and not any(a["k"] in ("for", "while", "do") for a in f.ancestors(c)):
+                # the first and only disjunct of a fresh object: reduced as long as it is not empty
+                p2 = flow.must_precede(f, c, discharged, edge_satisfied=nonempty_edge, track_env=False)
+                if p2 is None:
+                    ctx.ok(rid, inst + " [single disjunct, known non-empty or claim withdrawn]", f.where(c))
+                    continue
+            if p is not None:
+                # the claim withdrawn beforehand on every path, and nothing in the function sets it again
+                def withdrawn(x):
+                    if x["k"] != "assign":
+                        return False
+                    l = f.deref(x["c"][0])
+                    return l is not None and f.root(l)[-1:] == ("reduced",) and f.text(f.deref(x["c"][1])).replace(" ", "") in ("false", "0")
+                resets = any((x["k"] == "mcall" and f.call_name(x) in ("omega_reduce", "pairwise_reduce")) or
+                             (x["k"] == "assign" and f.deref(x["c"][0]) is not None and f.root(f.deref(x["c"][0]))[-1:] == ("reduced",) and not withdrawn(x))
+                             for x in f.walk())
+                if not resets and flow.must_precede(f, c, withdrawn, track_env=False) is None:
+                    p = None
+            if p is None:
+                ctx.ok(rid, inst, f.where(c))
+            elif f.name in R94_KEEPS:
+                ctx.excepted(rid, inst, f.where(c), R94_KEEPS[f.name])
+            else:
+                ctx.violation(rid, inst, f.where(c), "the disjuncts change and a path reaches the exit with the omega-reduction claim untouched (%s): omega_reduce() and the comparisons then trust a sequence that may hold entailed disjuncts" % flow.render_path(f, p))
+    ctx.floor(rid, n, 30, "disjunct-changing events")
+
+
 DIM_CHANGERS = ("add_space_dimensions_and_embed", "add_space_dimensions_and_project", "remove_space_dimensions",
                 "remove_higher_space_dimensions", "map_space_dimensions", "expand_space_dimension",
                 "fold_space_dimensions", "concatenate_assign")
@@ -200,8 +317,9 @@ def run(ctx):
     ctx.explanation = ("C09 structural clauses on Determinate<PSET> and Pointset_Powerset<C_Polyhedron|NNC_Polyhedron|Grid>: copy-on-write discipline, "
                        "uniform lifting of base operations to every disjunct, dimension bookkeeping; decides these clauses, not that reductions preserve the union")
     ctx.assumptions = ["omega-reduction, pairwise merge and linear_partition preserving the union is numeric: not decided",
-                       "reduced-flag hygiene is not a deciding clause (a stale flag costs precision, not the union)"]
+                       "R9.4 decides that the omega-reduction claim is withdrawn whenever the disjuncts change, not that omega_reduce() itself keeps the union"]
     fx = ctx.extract(units(ctx.tier))
     r9_1(ctx, fx)
     r9_2(ctx, fx)
     r9_3(ctx, fx)
+    r9_4(ctx, fx)
